@@ -5,7 +5,7 @@
 (* Records:                                                                 *)
 (*  {"ev":"world", "tl":[[del,tot]..], "keytl":[..], "chain":[..],          *)
 (*   "hassel":b, "hasb":b, "tlA":id, "tlB":id, "key0":k, "enA":b}           *)
-(*  {"ev":"op", "op":"key"|"enable"|"reset"|"settl", ...}                    *)
+(*  {"ev":"op", "op":"key"|"enable"|"reset"|"settl"|"setpos", ...}           *)
 (*  {"ev":"frame", "dt":ticks, "A":[st,pos,en], "B":[st,pos,en], "key":k,   *)
 (*   "out":[state numbers of the events sent this frame, in order]}         *)
 (* The system order is not logged: TLC picks `ord` nondeterministically at  *)
@@ -48,6 +48,7 @@ TOp ==
             [] r.op = "enable" -> SetEnabled(w, r.T, r.b)
             [] r.op = "reset" -> Reset(w, r.T)
             [] r.op = "settl" -> SetTimeline(w, r.T, r.id)
+            [] r.op = "setpos" -> SetPos(w, r.T, r.p)
   /\ l' = l + 1 /\ UNCHANGED <<ord, pred, wi>>
 
 TFrame ==
